@@ -190,9 +190,11 @@ theorem mutator_dirties_chain_reachable {ts : TState} (h : Reachable ts) (recv :
 __delitem__`, `Glyph.name =`) changes `font.lib` through a notification that is not `*.Changed`; a hold on the
 poster (the layer; the glyph and the layer) keeps it back.  Whatever is held: once all holds are released, `font.lib`
 and the font are dirty and have delivered their `*.Changed` — the update is neither lost in a hold queue nor applied
-without being announced. -/
+without being announced.  (`huw`: the font listens to the posters — it does not, yet, to a layer made while the layer
+set's notifications are held, until that hold is released: the code as it is, see the example below.) -/
 theorem relayed_update_arrives (ts : TState) (hw : WF ts.tree) (recv : Nat) (hr : recv < ts.tree.length) (e : Entry)
-    (ns : List Nat) (hns : relayNodes ts.tree recv e.relay = some ns) (l : Nat) (hl : l ∈ fontLib ts.tree recv)
+    (ns : List Nat) (hns : relayNodes ts.tree recv e.relay = some ns) (huw : ∀ n ∈ ns, n ∉ ts.unwired)
+    (l : Nat) (hl : l ∈ fontLib ts.tree recv)
     (ys : List Nat) (hdis : ∀ a ∈ path ts.tree l, a ∉ ts.s.disabled)
     (hall : (releaseAllT (applyMut ts recv e false) ys).s.holds = []) :
     ∀ a ∈ path ts.tree l, a ∈ (releaseAllT (applyMut ts recv e false) ys).s.dirty ∧
@@ -201,7 +203,7 @@ theorem relayed_update_arrives (ts : TState) (hw : WF ts.tree) (recv : Nat) (hr 
   rw [hm] at hall ⊢
   have hlt : l < ts.tree.length := mem_children_lt _ _ _ _ hl
   have hp := path_applyEffective ts recv e hw hr l hlt
-  have ha := arrives_applyEffective ts recv e hw hr ns hns l hl hdis
+  have ha := arrives_applyEffective ts recv e hw hr ns hns huw l hl hdis
   have := arrives_releaseAllT ys (applyEffective ts recv e) (wf_applyEffective ts recv e hw hr) l
     (by rw [hp, applyEffective_disabled ts recv e hw hr]; exact hdis) (by rw [hp]; exact ha)
   rw [hp] at this
@@ -232,6 +234,48 @@ theorem plain_setter_same_value_silent (ts : TState) (recv : Nat) (e : Entry) (h
     (hrel : e.relay = .none) (he : e.effs = []) : (applyMut ts recv e true).s = ts.s := by
   rw [plain_setter_is_guardedSet ts recv e hg ht hrel he true]
   exact same_value_silent ts.s recv (up ts.tree recv) 0
+
+/-- with nothing relayed waiting, a release in the tree model IS M-Dirty's `release` on the chain of the node -/
+theorem releaseT_no_deferred (ts : TState) (h : ts.deferred = []) (y : Nat) :
+    (releaseT ts y).s = release ts.s y (up ts.tree y) ∧ (releaseT ts y).tree = ts.tree ∧ (releaseT ts y).deferred = [] := by
+  unfold releaseT
+  simp only [h, List.filter_nil, List.foldl_nil]
+  split <;> exact ⟨rfl, rfl, by first | rfl | exact h⟩
+
+theorem releaseAllT_no_deferred (ys : List Nat) (ts : TState) (h : ts.deferred = []) :
+    (releaseAllT ts ys).s = releaseAll ts.s (ys.map fun y => (y, up ts.tree y)) := by
+  induction ys generalizing ts with
+  | nil => rfl
+  | cons y r ih =>
+    obtain ⟨h1, h2, h3⟩ := releaseT_no_deferred ts h y
+    have := ih (releaseT ts y) h3
+    unfold releaseAllT releaseAll at this ⊢
+    simp only [List.foldl_cons, List.map_cons]
+    rw [this, h1, h2]
+
+/-- REDUCTION, literally.  For a plain entry (`targets = [self]`, nothing relayed, no tree effect — every scalar setter
+and every point / item edit of the table) in a state where no relayed notification waits, the run "call, then release
+`ys`" of the tree model is the run `releaseAll (touch s x rest) rels` of M-Dirty on the receiver's chain, and the claim is
+`change_propagates` itself. -/
+theorem plain_mutator_dirties_chain (ts : TState) (hw : WF ts.tree) (hd : ts.deferred = []) (recv : Nat) (e : Entry)
+    (ht : e.targets = [.self]) (hrel : e.relay = .none) (he : e.effs = []) (ys : List Nat)
+    (hdis : ∀ a ∈ recv :: up ts.tree recv, a ∉ ts.s.disabled)
+    (hall : (releaseAllT (applyMut ts recv e false) ys).s.holds = []) :
+    ∀ a ∈ recv :: up ts.tree recv, a ∈ (releaseAllT (applyMut ts recv e false) ys).s.dirty ∧
+      a ∈ (releaseAllT (applyMut ts recv e false) ys).s.log := by
+  have hs : applyMut ts recv e false =
+      { ts with s := touch ts.s recv (up ts.tree recv), hits := ts.hits ++ [recv] } := by
+    unfold applyMut applyEffective directTargets
+    simp [ht, hrel, he, relayNodes, targetNodes, touchT]
+  rw [hs] at hall ⊢
+  have key := releaseAllT_no_deferred ys
+    { ts with s := touch ts.s recv (up ts.tree recv), hits := ts.hits ++ [recv] } hd
+  rw [key] at hall ⊢
+  apply change_propagates ts.s recv (up ts.tree recv) _ hdis _ hall
+  intro r hr hmem
+  simp only [List.mem_map] at hr
+  obtain ⟨y, _, rfl⟩ := hr
+  exact path_split ts.tree hw recv y hmem
 
 /-! ### the table, the harness catalogue and the source (regenerated tables) -/
 
@@ -330,6 +374,14 @@ example : relayNodes demoTree 4 nameE.relay = some [4, 2] ∧ fontLib demoTree 4
 example : (applyMut demoT 2 newGlyphE false).tree.length = 13 ∧ path (applyMut demoT 2 newGlyphE false).tree 11 = [11, 10, 2, 1, 0] ∧
     path (applyMut demoT 2 newGlyphE false).tree 6 = [6, 4, 2, 1, 0] ∧ wfb (applyMut demoT 2 newGlyphE false).tree = true ∧
     (applyMut demoT 2 newGlyphE false).s.dirty = [10, 2] := by decide
+/-- a layer (10, with its lib 11) made while the layer set (1) is held: the font has not heard `LayerSet.LayerAdded` yet and
+does not listen to the new layer — a glyph made there leaves the font lib (8) alone; once the layer set is released the
+font listens, and the next glyph does update the glyph order (the code as it is; `huw` of `relayed_update_arrives`) -/
+example :
+    let newLayerE : Entry := { kind := .layerSet, name := "newLayer", methods := ["newLayer"], effs := [.add .layer true [(.lib, false)]] }
+    let t1 := applyMut (holdT { tree := demoTree } 1) 1 newLayerE false
+    t1.unwired = [10] ∧ (applyMut t1 10 newGlyphE false).hits = [1, 10] ∧
+    (releaseT t1 1).unwired = [] ∧ (applyMut (releaseT t1 1) 10 newGlyphE false).hits = [1, 10, 8] := by decide
 /-- a plain setter is M-Dirty's `guardedSet` on the receiver's chain -/
 example : (setter .glyph "width").guarded = true ∧ (setter .glyph "width").targets = [.self] ∧
     (setter .glyph "width").relay = .none ∧ (setter .glyph "width").effs = [] := by decide
